@@ -86,3 +86,179 @@ def exp_digits_ok(s, limit=4):
 
 def tail_for(rng):
     return rng.choice(["", "", " x", " ", "x1", "\n", " <= 3", ":", "\\", "\t", "*"])
+
+
+# ----------------------------------------------------------------------------- problems by name (C08 / C09 / C14 / C19)
+
+KEYWORD_NAMES = ["end", "st", "min", "max", "bounds", "bound", "free", "inf", "infinity", "integer", "int", "subject", "problem",
+                 "minimize", "maximum", "End", "ST", "FREE", "Inf"]
+CLASH_NAMES = ["x1", "x2", "x_1", "X1", "c1", "c2", "c3", "C2", "c2_0", "c1_0", "obj", "OBJ", "x", "c", "X_", "x_"]
+MPS_SET_NAMES = ["RHS", "BOUND", "RANGE", "RANGES", "BOUNDS", "ROWS", "COLUMNS", "NAME", "ENDATA", "MARKER", "N", "L", "UP", "FR"]
+LP_OK_FIRST = string.ascii_letters + "!\"#$%&()/,;?@_`'{}|~"
+LP_OK_REST = LP_OK_FIRST + string.digits + "."
+LP_BAD = "*^[]:<>=+-\\"
+
+
+def rand_name(rng, kind, fmt):
+    if kind == "plain":
+        return rng.choice("xyzabvw") + str(rng.randint(0, 99)) + rng.choice(["", "_", "a", ".1"])
+    if kind == "keyword":
+        return rng.choice(KEYWORD_NAMES)
+    if kind == "clash":
+        return rng.choice(CLASH_NAMES)
+    if kind == "setname":
+        return rng.choice(MPS_SET_NAMES)
+    if kind == "symbols":
+        return rng.choice(LP_OK_FIRST) + "".join(rng.choice(LP_OK_REST) for _ in range(rng.randint(0, 6)))
+    if kind == "e-like":
+        return rng.choice(["e", "E", "e5", "E1x", "e+", "ee", "inf1", "infx", "free2", "Ex"])
+    if kind == "digit-first":
+        return rng.choice("0123456789.") + "".join(rng.choice(LP_OK_REST) for _ in range(rng.randint(0, 4)))
+    if kind == "numeric":
+        return rng.choice(["12", "1e5", "3.5", "0", "7/2", "-1", "+2", "1.e1"])
+    if kind == "bad-char":
+        s = "".join(rng.choice(LP_OK_REST) for _ in range(rng.randint(0, 4)))
+        i = rng.randint(0, len(s))
+        return "v" + s[:i] + rng.choice(LP_BAD) + s[i:]
+    if kind == "blank":
+        return "a" + rng.choice([" ", "\t"]) + "b" + str(rng.randint(0, 9))
+    if kind == "long":
+        return "L" + "".join(rng.choice(string.ascii_lowercase) for _ in range(rng.choice([40, 200, 300, 1000])))
+    return "n%d" % rng.randint(0, 999)
+
+
+def name_kinds(fmt, repair):
+    base = ["plain"] * 6 + ["keyword", "clash", "clash", "symbols", "e-like", "setname", "long"]
+    if repair:
+        base += ["digit-first", "bad-char", "numeric"]
+        if fmt == "LP":
+            base += ["blank"]
+    return base
+
+
+def unique_names(rng, k, fmt, repair, taken):
+    out = []
+    kinds = name_kinds(fmt, repair)
+    while len(out) < k:
+        n = rand_name(rng, rng.choice(kinds), fmt)
+        if fmt == "MPS" and (n.startswith("$") or n.startswith("*")):
+            continue        # not expressible in MPS at all ('$' opens a comment in fields 3/5, '*' a comment line)
+        if n not in taken and n != "-":
+            taken.add(n)
+            out.append(n)
+    return out
+
+
+def rand_num(rng, big=False, cap=None):
+    k = rng.random()
+    if big and k < 0.15:
+        d = cap or rng.choice([60, 300, 1000])
+        return F(rng.randint(-10 ** d, 10 ** d), rng.choice([1, rng.randint(1, 10 ** d)]))
+    if k < 0.45:
+        return F(rng.randint(-9, 9))
+    if k < 0.75:
+        return F(rng.randint(-99, 99), rng.randint(1, 12))
+    if k < 0.9:
+        return F(rng.randint(-10 ** 6, 10 ** 6), rng.choice([7919, 104729, 10 ** 9, 3]))
+    return F(rng.choice([1, -1, 1, 1]))
+
+
+def rand_bounds(rng, big=False):
+    """(lo, up) over every shape: default, free, fixed, two-sided, one-sided, negative upper (finite or infinite lower), zero-width at 0"""
+    k = rng.choice(["default", "default", "free", "fixed", "box", "lo", "up", "negup-inf", "negup-fin", "zero", "neglo", "up0", "fixedneg", "loinf-up0"])
+    a, b = sorted([rand_num(rng, big, 60), rand_num(rng, big, 60)])   # bounds stay well inside the sentinel 1e150
+    if k == "default":
+        return F(0), INF
+    if k == "free":
+        return NINF, INF
+    if k == "fixed":
+        return a, a
+    if k == "fixedneg":
+        return -abs(a) - 1, -abs(a) - 1
+    if k == "box":
+        return a, b
+    if k == "lo":
+        return abs(a) + 1, INF
+    if k == "neglo":
+        return -abs(a) - 1, INF
+    if k == "up":
+        return F(0), abs(b) + 1
+    if k == "up0":
+        return F(0), F(0)
+    if k == "negup-inf":
+        return NINF, -abs(b) - 1
+    if k == "loinf-up0":
+        return NINF, rng.choice([F(0), abs(b)])
+    if k == "negup-fin":
+        return -abs(a) - abs(b) - 2, -abs(b) - 1
+    return F(0), F(0)
+
+
+def gen_problem(rng, fmt="LP", repair=True, big=True, ncols=None, nrows=None, ints=True, name=None):
+    """problem by name covering the shapes listed in C08/C09; every column has a non-zero somewhere, >= 1 non-empty row"""
+    n = ncols or rng.choice([1, 2, 3, 4, 5, 8, 8, 12] + ([60] if rng.random() < 0.15 else []))
+    if n >= 60:
+        big = False
+    m = nrows or rng.choice([1, 2, 3, 4, 6])
+    taken = set()
+    cn = unique_names(rng, n, fmt, repair, taken)
+    rn = unique_names(rng, m, fmt, repair, taken)
+    cols = []
+    for j in range(n):
+        lo, up = rand_bounds(rng, big)
+        obj = rand_num(rng, big) if rng.random() < 0.7 else F(0)
+        cols.append([cn[j], obj, lo, up, ints and rng.random() < 0.2])
+    rows = []
+    for i in range(m):
+        dens = rng.choice([0.0, 0.3, 0.6, 1.0]) if m > 1 and i > 0 else rng.choice([0.5, 1.0])
+        ent = []
+        for j in range(n):
+            if rng.random() < dens:
+                v = rand_num(rng, big)
+                if v != 0:
+                    ent.append((cn[j], v))
+        s = rng.choice("LGEERR")
+        rhs = rand_num(rng, big)
+        rg = F(0)
+        if s == "R":
+            rg = abs(rand_num(rng, big)) + (0 if rng.random() < 0.05 else 1)
+        if not ent and rng.random() < 0.8:
+            # an empty row that 0 satisfies (the writers drop empty rows; an unsatisfiable one changes the problem, see empty_ok)
+            rhs = {"L": abs(rhs), "G": -abs(rhs), "E": F(0), "R": -abs(rhs)}[s]
+            if s == "R":
+                rg = abs(rhs) + rg
+        rows.append([rn[i], s, rhs, rg, ent])
+    # precondition of C08: each column has a non-zero somewhere, one non-empty row
+    for j in range(n):
+        if cols[j][1] == 0 and not any(c == cn[j] for r in rows for c, _ in r[4]):
+            r = rng.choice(rows)
+            r[4].append((cn[j], rand_num(rng) or F(1)))
+    if not any(r[4] for r in rows):
+        rows[0][4].append((cn[0], F(1)))
+    return dict(name=name or ("p" + str(rng.randint(0, 999))), max=rng.random() < 0.5,
+                cols=[tuple(c) for c in cols], rows=[tuple(r) for r in rows])
+
+
+def small_problem(rng, n=None, m=None, name="s"):
+    """small LP with plain names (C14 / C19)"""
+    return gen_problem(rng, "LP", repair=False, big=False, ncols=n or rng.randint(1, 5), nrows=m or rng.randint(1, 4), ints=False, name=name)
+
+
+def magnitude_ok(P, lo=F(1, 10 ** 40), hi=F(10 ** 40)):
+    """all non-zero numbers of P within [lo, hi] in absolute value (the float levels of the solver overflow otherwise)"""
+    def ok(v):
+        return isinstance(v, str) or v == 0 or lo <= abs(v) <= hi
+    return all(ok(c[1]) and ok(c[2]) and ok(c[3]) for c in P["cols"]) and \
+        all(ok(r[2]) and ok(r[3]) and all(ok(v) for _, v in r[4]) for r in P["rows"])
+
+
+def empty_rows_ok(P):
+    """every row without non-zero coefficient is satisfied by activity 0 (hypothesis empty_ok of IO/Equiv.v)"""
+    for (n, s, rhs, rg, ent) in P["rows"]:
+        acc = {}
+        for c, v in ent:
+            acc[c] = acc.get(c, F(0)) + v
+        if all(v == 0 for v in acc.values()):
+            if not {"L": 0 <= rhs, "G": rhs <= 0, "E": rhs == 0, "R": rhs <= 0 <= rhs + rg}[s]:
+                return False
+    return True
